@@ -237,9 +237,15 @@ class StdoutProxy:
         else:
             # Make sure `write_and_flush` is executed *in* the event loop, not
             # in another thread.
-            loop.call_soon_threadsafe(
-                write_and_flush_in_loop, context=self._context.copy()
-            )
+            try:
+                loop.call_soon_threadsafe(
+                    write_and_flush_in_loop, context=self._context.copy()
+                )
+            except RuntimeError:
+                # The application terminated and its event loop was closed
+                # after `_get_app_loop` returned it. Don't let this kill the
+                # flush thread; there is no prompt anymore, write directly.
+                write_and_flush()
 
     def _write(self, data: str) -> None:
         """
